@@ -18,8 +18,8 @@ import json
 import os
 import re
 
-from common import (Check, coq_bool, coq_list, coq_str, coq_Z, parse_coq_value,
-                    parse_eval_outputs, run_impl)
+from common import (COQ, Check, coq_bool, coq_list, coq_str, coq_Z, parse_coq_value,
+                    parse_eval_outputs, run_impl, sh)
 
 IMPL_ENV = {"AIOKAFKA_NO_EXTENSIONS": "1"}
 IMPORTS = ["Wire", "WireTables", "KafkaSpec", "C11Negotiate", "C11Tables", "WireRun", "Schemas"]
@@ -412,6 +412,16 @@ def run(ck: Check):
         ck.extra["coq_failure"] = failing_lemma(out_p)
         ck.log("failing lemma:", ck.extra["coq_failure"])
 
+    if ck.thorough and ok_p:
+        # independent re-check of the compiled proofs by coqchk (prints the axioms it finds: none expected)
+        rc, outk = sh(["coqchk", "-silent", "-o", "-Q", "lib", "Verif", "-Q", "model", "Verif", "-Q", "gen", "Verif",
+                       "-Q", "proof", "Verif", "-Q", "props", "Verif", "Verif.C11"], cwd=COQ, timeout=1200)
+        summary = outk[outk.find("CONTEXT SUMMARY"):] if "CONTEXT SUMMARY" in outk else outk[-400:]
+        ck.obligation("audit:coqchk-props-C11", rc == 0 and "* Axioms: <none>" in summary, summary[-400:])
+        ck.extra["coqchk"] = " ".join(summary.split())[:400]
+        ck.checker_cmds.append("cd coq && coqchk -o <includes> Verif.C11")
+        lap("coqchk")
+
     # ---------------------------------------------------------------- describe the real classes
     desc = run_impl("c11_impl.py", {"describe": 1, "probes": 1}, env=IMPL_ENV)
     probes = desc["probes"]
@@ -433,7 +443,7 @@ def run(ck: Check):
 
     # ---------------------------------------------------------------- (2a) codec cases
     cases = []          # (name, tree, value)
-    nper = ck.n(16, 120)
+    nper = ck.n(16, 80)
     for name, s in list(structs.items()) + list(prims.items()):
         if name in unknown_types:
             continue
@@ -452,6 +462,21 @@ def run(ck: Check):
             if h not in seen:
                 seen.add(h)
                 cases.append((name, tr, v))
+    # corpus first: inputs of past failures (corpus/C11/*.json)
+    corpus_reply = []
+    n_corpus = 0
+    cdir = os.path.join("corpus", "C11")
+    for fn in sorted(os.listdir(cdir)) if os.path.isdir(cdir) else []:
+        if fn.endswith(".json"):
+            with open(os.path.join(cdir, fn)) as f:
+                cj = json.load(f)
+            for c in cj.get("codec", []):
+                s_ = structs.get(c["s"]) or prims.get(c["s"])
+                if s_ is not None:
+                    cases.insert(0, (c["s"], s_["tree"], c["v"]))
+                    n_corpus += 1
+            corpus_reply += cj.get("reply", [])
+    ck.extra["corpus_cases"] = n_corpus + len(corpus_reply)
     # every boundary of the variable-length primitives, explicitly
     for b in VARINT_BOUNDS:
         cases.append(("prim:UnsignedVarInt32", prims["prim:UnsignedVarInt32"]["tree"], b))
@@ -835,6 +860,9 @@ def run(ck: Check):
             continue
         fields = want["tree"]["fields"]
         flex = bool(fields) and fields[-1][1]["k"] == "TaggedFields"
+        for c in corpus_reply:
+            if c["req"] == s["name"]:
+                reply_cases.append({"req": s["name"], "resp": want["name"], "v": c["v"], "flex": flex, "corr": 4242})
         for mode in ["one", "max", "rand", "rand"][: ck.n(3, 4)]:
             v = gen(want["tree"], rng, mode)
             reply_cases.append({"req": s["name"], "resp": want["name"], "v": v, "flex": flex, "corr": 4242})
@@ -1181,4 +1209,17 @@ def replay(ck: Check, path):
     else:
         print(json.dumps(rp, indent=1)[:3000])
         print("this replay names a broken obligation / probe; run `bin/check C11` to re-evaluate it")
-    return ck.finish()
+    # verdict of the replay alone (evidence/C11.json of the last full run is left untouched)
+    from common import load_known_findings, match_known
+    kf = load_known_findings()
+    rc = 0
+    for v in ck.violations:
+        m = match_known(kf, "C11", v.signature)
+        if m:
+            print(f"KNOWN-FINDING: property=C11 {m['what']}")
+        else:
+            print(f"VIOLATION property=C11 replay={path}")
+            rc = 1
+    if not ck.violations:
+        print("replay: the recorded failure does not reproduce on the current tree")
+    return rc
